@@ -1,17 +1,17 @@
 CONSTANTS
   Server = {1, 2, 3}
   Campaigners = {1, 2, 3}
-  MaxTerm = 4
-  MaxProposals = 3
-  MaxCrashes = 2
-  MaxDrops = 2
-  MaxDups = 1
-  MaxHeartbeats = 2
-  MaxLog = 8
-  MaxNet = 8
-  MaxEnts = 1
+  MaxTerm = 2
+  MaxProposals = 1
+  MaxCrashes = 0
+  MaxDrops = 0
+  MaxDups = 0
+  MaxHeartbeats = 0
+  MaxLog = 3
+  MaxNet = 4
+  MaxEnts = 0
   LossySend = FALSE
-  SimDepth = 40
+  SimDepth = 0
   W_CommitAnyTerm = FALSE
   W_VoteIgnoreVoted = FALSE
   W_VoteIgnoreLog = FALSE
@@ -19,9 +19,11 @@ CONSTANTS
   W_AppendAlwaysTruncates = FALSE
   W_HeartbeatCommitUnbounded = FALSE
   W_QuorumMinusOne = FALSE
-  PreVote = FALSE
+  PreVote = TRUE
   W_PreVoteRespCountsAsVote = FALSE
 INIT Init
 NEXT Next
 CONSTRAINT NetBound
-INVARIANTS ElectionSafety LogMatching StateMachineSafety LeaderCompleteness CommitWithinLog PersistedMatchesVolatile MatchSound EmitSim
+VIEW view
+INVARIANTS ElectionSafety LogMatching StateMachineSafety LeaderCompleteness CommitWithinLog PersistedMatchesVolatile MatchSound
+PROPERTY HardStateMonotonic
